@@ -616,12 +616,13 @@ func TestVerifC27(t *testing.T) {
 	}
 	r.Finish(vlib.Spec{
 		Level: "exploration",
-		Rule:  "pair: real client (UseCompressor in {none, identity, gzip, vz-a, vz-b, unregistered}; legacy WithCompressor / WithDecompressor in {none, builtin gzip, custom lz-q, custom typed vz-a}; experimental.AcceptCompressors in {unused, [gzip], [vz-a vz-b], [gzip vz-a], [identity], [vz-b], []}) against a real server (RPCCompressor / RPCDecompressor same choices; handler calls SetSendCompressor 0-2 times with names in {identity, gzip, vz-a, vz-b, lz-q, unregistered}) exchanging 1-3 messages each way of sizes {0,1,2,17,300,5000,<40000}; srv: the same server against a scripted client sending grpc-encoding in {absent, identity, gzip, vz-a, vz-b, lz-q, unregistered} and grpc-accept-encoding in 11 shapes (absent, empty, spaces, split over two headers, unknown names, identity); cli: the same client against a scripted server answering with any of those encodings, compressed and uncompressed messages mixed. All facts (flag bytes, grpc-encoding, grpc-accept-encoding, grpc-status) are read from the wire (tap / peer log). Oracles: flag in {0,1}; flag=1 => stream grpc-encoding non-identity; non-identity and non-empty => flag=1; wire bytes decode with the reference decoder of the encoding named on the wire to the bytes the application sent; request encoding = UseCompressor else WithCompressor type; response encoding in {identity, request encoding, client-advertised name} (or the legacy RPCCompressor's type, R2); SetSendCompressor succeeds iff the name is identity or registered and advertised, and the last success is what the headers carry; receivers deliver exactly what the reference decodes; unusable encoding => UNIMPLEMENTED (server, wire) / INTERNAL (client). non-trivial = RPC reached the wire and was judged; distinct = (family, request encoding, response encoding, legacy server compressor, #SetSendCompressor, reference ends)",
+		Rule:  "pair: real client (UseCompressor in {none, identity, gzip, vz-a, vz-b, unregistered}; legacy WithCompressor / WithDecompressor in {none, builtin gzip, custom lz-q, custom typed vz-a}; experimental.AcceptCompressors in {unused, [gzip], [vz-a vz-b], [gzip vz-a], [identity], [vz-b], []}) against a real server (RPCCompressor / RPCDecompressor same choices; handler calls SetSendCompressor 0-2 times with names in {identity, gzip, vz-a, vz-b, lz-q, unregistered}) exchanging 1-3 messages each way of sizes {0,1,2,17,300,5000,<40000}; srv: the same server against a scripted client sending grpc-encoding in {absent, identity, gzip, vz-a, vz-b, lz-q, unregistered} and grpc-accept-encoding in 11 shapes (absent, empty, spaces, split over two headers, unknown names, identity); cli: the same client against a scripted server answering with any of those encodings, compressed and uncompressed messages mixed; retry: that client with a retry policy (maxAttempts 5, UNAVAILABLE) against a scripted server that refuses 1-3 attempts Trailers-Only (each block carrying its own grpc-encoding value out of the 7) and answers the last attempt under any of the 7 encodings (index walks first-refusal encoding x final encoding x UseCompressor), every attempt's request judged as a sender, the final attempt's messages judged against the reference of THAT attempt's encoding only; 4 of 9 pair cases additionally have the real handler refuse the first 1-2 attempts (judged on the last attempt's stream). All facts (flag bytes, grpc-encoding, grpc-accept-encoding, grpc-status) are read from the wire (tap / peer log). Oracles: flag in {0,1}; flag=1 => stream grpc-encoding non-identity; non-identity and non-empty => flag=1; wire bytes decode with the reference decoder of the encoding named on the wire to the bytes the application sent; request encoding = UseCompressor else WithCompressor type; response encoding in {identity, request encoding, client-advertised name} (or the legacy RPCCompressor's type, R2); SetSendCompressor succeeds iff the name is identity or registered and advertised, and the last success is what the headers carry; receivers deliver exactly what the reference decodes; unusable encoding => UNIMPLEMENTED (server, wire) / INTERNAL (client). non-trivial = RPC reached the wire and was judged; distinct = (family, request encoding, response encoding, legacy server compressor, #SetSendCompressor, reference ends)",
 		Assumptions: []string{
 			"R2: empty messages may be sent uncompressed (flag 0) on a compressed stream",
 			"R2: a server configured with the deprecated grpc.RPCCompressor answers with that compressor regardless of what the client advertised (documented behaviour); the advertised-set rule is judged for SetSendCompressor and default behaviour only",
 			"a response in an encoding excluded by experimental.AcceptCompressors may be rejected or decoded; only delivering undecoded bytes is a violation",
 			"compressed flag with identity encoding: INTERNAL or UNIMPLEMENTED accepted at the server",
+			"whether and when a retry happens belongs to C18: an RPC whose next attempt never reaches the wire is counted (retry_not_attempted_*) and not judged; backoff runs on the bubble's virtual clock",
 		},
 		Floor: floor,
 	})
